@@ -148,9 +148,17 @@ def canon_atom(e):
         if isinstance(op, ast.Is):
             return f"{l} is {r}", True
         if isinstance(op, ast.NotEq):
-            return f"{l} == {r}", False
+            a, b = sorted((l, r))
+            return f"{a} == {b}", False
         if isinstance(op, ast.NotIn):
             return f"{l} in {r}", False
+        if isinstance(op, ast.Eq):
+            a, b = sorted((l, r))
+            return f"{a} == {b}", True
+        if isinstance(op, ast.Gt):
+            return f"{r} < {l}", True
+        if isinstance(op, ast.GtE):
+            return f"{r} <= {l}", True
     if isinstance(e, ast.Call):
         d = dotted(e.func) or ""
         if d.split(".")[-1] in ("isna", "isnull") and len(e.args) == 1 and d.split(".")[0] in ("pd", "pandas", "np", "numpy"):
